@@ -564,7 +564,7 @@ def cont_check(dimkind, case, rec):
                 continue
             vol = volumes(P, C, t)
             tol = 1e-10 + (1e-4 if merged else 0.0)
-            rec.close(f"{step}:member-volumes", float(np.abs(vol - ref).max()) / float(np.abs(ref).max()) if vol.shape == ref.shape else float("inf"), tol, {"member": i})
+            rec.close(f"{step}:member-volumes", float(np.abs(vol - ref).max()) / max(float(np.abs(ref).max()), 1e-300) if vol.shape == ref.shape else float("inf"), tol, {"member": i})
             rec.close(f"{step}:orientation", max(0.0, float(-vol.min())), 0.0)
         # members are meshes of their own: their bookkeeping describes the shared point array, and meshes taken out of
         # the container can be concatenated again (same cell type) without losing or moving any cell
@@ -578,7 +578,7 @@ def cont_check(dimkind, case, rec):
             else:
                 vol = volumes(np.asarray(cat.points, float), C, types[0])
                 ref = np.concatenate(model)
-                rec.close(f"{step}:concatenated-members-volumes", float(np.abs(vol - ref).max()) / float(np.abs(ref).max()) if vol.shape == ref.shape else float("inf"),
+                rec.close(f"{step}:concatenated-members-volumes", float(np.abs(vol - ref).max()) / max(float(np.abs(ref).max()), 1e-300) if vol.shape == ref.shape else float("inf"),
                           1e-10 + (1e-4 if merged else 0.0))
                 cent = np.asarray(cat.points, float)[C].mean(1)
                 cref = np.concatenate([np.asarray(cont.points, float)[np.asarray(m.cells)].mean(1) for m in cont.meshes])
@@ -608,7 +608,7 @@ def cont_check(dimkind, case, rec):
                 stacked = cont.stack()
                 vol = volumes(np.asarray(stacked.points, float), np.asarray(stacked.cells), types[0])
                 ref = np.concatenate(model)
-                rec.close("stack:volumes", float(np.abs(vol - ref).max()) / float(np.abs(ref).max()) if vol.shape == ref.shape else float("inf"), 1e-10 + (1e-4 if merged else 0.0))
+                rec.close("stack:volumes", float(np.abs(vol - ref).max()) / max(float(np.abs(ref).max()), 1e-300) if vol.shape == ref.shape else float("inf"), 1e-10 + (1e-4 if merged else 0.0))
                 if len(model) >= 2:
                     # a selection of members (list of indices, not a prefix): the stacked mesh holds exactly those members' cells
                     pick = [len(model) - 1] if o.get("decimals") is None else [len(model) - 1, 0]
